@@ -3,7 +3,7 @@
    (recorded BEFORE anything is executed) and the history of aggregate statements executed on it, each with the rows
    it returned:
 
-   isum  {id, sc, prices, tab: [[g, null, inventory]], stmts: [{nodes: [[kind, f]], grouped, having, rows: [[key, [inventory..]]]}]}
+   isum  {id, sc, prices, tab: [[g, null, inventory]], stmts: [{nodes: [[kind, f]], grouped, having, limit, rows: [[key, [inventory..]]]}]}
 
    Every statement of the history is judged with InvSum!Expected (the operators TLC checked the mechanism SumStore
    against): the result depends on the table as defined and the statement only.  A line that is not explained is
@@ -17,16 +17,20 @@ tvars == <<l, nbad>>
 
 Range(s) == {s[n] : n \in 1..Len(s)}
 TTab(e) == [n \in 1..Len(e.tab) |-> Row(e.tab[n][1], e.tab[n][2], InvOfSeq(e.tab[n][3]))] \o <<>>
-TStmt(x) == Stmt(x.nodes, x.grouped, x.having)
+TStmt(x) == StmtL(x.nodes, x.grouped, x.having, x.limit)
 ObsSet(x) == { [key |-> x.rows[n][1], vals |-> [m \in 1..Len(x.rows[n][2]) |-> InvOfSeq(x.rows[n][2][m])]] :
                  n \in 1..Len(x.rows) }
 StmtOK(tab, x, pr, sc) ==
-    LET obs == ObsSet(x) IN Cardinality(obs) = Len(x.rows) /\ obs = Expected(tab, TStmt(x), pr, sc)
+    LET obs == ObsSet(x) IN Cardinality(obs) = Len(x.rows) /\ Conforms(obs, tab, TStmt(x), pr, sc)
 (* for the report: the first node whose value differs in a group both sides have; 0: the groups themselves differ *)
 BadNode(tab, x, pr, sc) ==
     LET exp == Expected(tab, TStmt(x), pr, sc)
         obs == ObsSet(x)
-    IN IF {r.key : r \in exp} # {r.key : r \in obs} \/ Cardinality(obs) # Len(x.rows) THEN 0
+        ek == {r.key : r \in exp}
+        ok == {r.key : r \in obs}
+        keysbad == IF x.limit = 0 THEN ek # ok
+                   ELSE ~(ok \subseteq ek) \/ Cardinality(ok) # MinOf(x.limit, Cardinality(ek))
+    IN IF keysbad \/ Cardinality(obs) # Len(x.rows) \/ Cardinality(ok) # Len(x.rows) THEN 0
        ELSE LET B == {m \in 1..Len(x.nodes) : \E r \in exp, o \in obs : r.key = o.key /\ r.vals[m] # o.vals[m]}
             IN IF B = {} THEN 0 ELSE CHOOSE m \in B : \A k \in B : m <= k
 
